@@ -400,6 +400,21 @@ def build_world(ctx: Ctx, loop, world_kw=None, connect_order=None):
                 calls.append((key, [c]))
         else:
             calls.append((None, [c]))
+    def refused(when):
+        # connect() calls that mosaik must REFUSE (unknown source attribute) and whose ScenarioError the scenario script catches:
+        # they are not connections of the scenario and must leave nothing behind
+        from mosaik.exceptions import ScenarioError as _SE
+
+        for r in scn.get("refused_calls") or []:
+            if r.get("when", "before") != when:
+                continue
+            try:
+                world.connect(ents[r["src"]][0], ents[r["dst"]][0], ("zz_no_such_output", r.get("da", "ti")), **(r.get("kw") or {}))
+                ctx.refused_accepted = True
+            except _SE:
+                pass
+
+    refused("before")
     for _, group in calls:
         c = group[0]
         ckw = {}
@@ -423,6 +438,7 @@ def build_world(ctx: Ctx, loop, world_kw=None, connect_order=None):
             continue
         pairs = [p_[0] if p_[0] == p_[1] else p_ for p_ in pairs]  # connect(a, b, 'p') for ('p', 'p')
         world.connect(ents[c["src"]][eidx(c["se"])], ents[c["dst"]][eidx(c["de"])], *pairs, **ckw)
+    refused("after")
     for c in conns:
         if c["sa"]:
             ctx.has_out.add(c["src"])
